@@ -240,5 +240,136 @@ class StackStream(Stream):
         return fails
 
 
+class ReleaseFallThrough(Stream):
+    """a prior solution stacked before a find-links directory by the real build_repo; projects are released with -P in
+    any spelling; one request: who answers, with which version?"""
+    name = "release-fall-through"
+    quick_n = 250
+    thorough_n = 10000
+    batch = 50
+
+    NAMES = ["lazy-object-proxy", "Foo.Bar", "six", "zope.interface", "my_lib", "a"]
+    VERS = ["1.0", "1.5", "2.0", "3.0"]
+
+    def setup(self):
+        import tempfile
+        self.tmp = tempfile.mkdtemp(prefix="rvc04r")
+
+    def teardown(self):
+        import shutil
+        shutil.rmtree(getattr(self, "tmp", ""), ignore_errors=True)
+
+    @staticmethod
+    def _spell(rng, n):
+        out = []
+        for ch in n:
+            if ch in "-_.":
+                out.append(rng.choice("-_."))
+            elif ch.isalpha() and rng.random() < 0.3:
+                out.append(ch.swapcase())
+            else:
+                out.append(ch)
+        return "".join(out)
+
+    def generate(self, rng):
+        names = rng.sample(self.NAMES, rng.randint(1, 4))
+        sol = {n: rng.choice(self.VERS[:3]) for n in names if rng.random() < 0.8}
+        links = {n: sorted(rng.sample(self.VERS, rng.randint(1, 3))) for n in names if rng.random() < 0.8}
+        released = [self._spell(rng, rng.choice(self.NAMES)) for _ in range(rng.choice([0, 1, 1, 2]))]
+        return {"solution": sol, "links": links, "released": released, "request": self._spell(rng, rng.choice(names))}
+
+    def impl(self, case):
+        import contextlib
+        import io
+        import shutil
+        from rv.core import digest
+        from rv import backends as B, graphlib as GL
+        import req_compile.cmdline as C
+        from req_compile.errors import NoCandidateException
+        GL.reset_caches()
+        d = os.path.join(self.tmp, digest(case))
+        os.makedirs(os.path.join(d, "links"), exist_ok=True)
+        files = {}
+        for n, vs in case["links"].items():
+            for v in vs:
+                files[B.wheel_name(n, v)] = B.wheel_bytes(n, v)
+        B.write_findlinks(os.path.join(d, "links"), files)
+        with open(os.path.join(d, "prior.txt"), "w") as f:
+            for n, v in sorted(case["solution"].items()):
+                f.write("%s==%s  # in0.txt\n" % (n, v))
+        out = {}
+        try:
+            with contextlib.redirect_stderr(io.StringIO()):
+                repo = C.build_repo([os.path.join(d, "prior.txt")], case["released"], [], [], [os.path.join(d, "links")], [], os.path.join(d, "w"), no_index=True)
+                try:
+                    dist, _ = repo.get_dist(GL.P(case["request"]))
+                    out["answer"] = str(dist.version)
+                    out["origin"] = type(dist.origin).__name__
+                except NoCandidateException:
+                    out["answer"] = None
+        except Exception as ex:
+            out["error"] = type(ex).__name__ + ": " + str(ex)[:120]
+        shutil.rmtree(d, ignore_errors=True)
+        return out
+
+    def model_request(self, case, r):
+        rank = {v: i + 1 for i, v in enumerate(self.VERS)}
+        return {"op": "stack-get", "front": [{"name": n, "versions": [rank[v]]} for n, v in case["solution"].items()],
+                "back": [{"name": n, "versions": [rank[v] for v in vs]} for n, vs in case["links"].items()],
+                "released": case["released"], "request": case["request"]}
+
+    def compare(self, case, r, m):
+        if "error" in r:
+            return False
+        rank = {v: i + 1 for i, v in enumerate(self.VERS)}
+        got = None if r["answer"] is None else rank[r["answer"]]
+        return got == m["answer"] and (r["answer"] is None or (r["origin"] == "SolutionRepository") == (not m["index_asked"]))
+
+    def flags(self, case, r):
+        from rv import graphlib as GL
+        fl = []
+        req = GL.norm(case["request"])
+        rel = {GL.norm(x) for x in case["released"]}
+        sol = {GL.norm(n) for n in case["solution"]}
+        if req in rel and req in sol:
+            fl.append("requested-project-released")
+        if req in sol and req not in rel:
+            fl.append("answered-by-solution")
+        if any(c in "-_." for c in "".join(case["released"])):
+            fl.append("released-name-with-separator")
+        if r.get("answer") is None:
+            fl.append("no-candidate")
+        return fl
+
+    def oracle(self, case, r):
+        from rv import graphlib as GL
+        if "error" in r:
+            return [("C04/stack-raises", r)]
+        req = GL.norm(case["request"])
+        rel = {GL.norm(x) for x in case["released"]}
+        sol = {GL.norm(n): v for n, v in case["solution"].items()}
+        links = {GL.norm(n): vs for n, vs in case["links"].items()}
+        if req in sol and req not in rel:
+            want, origin = sol[req], "SolutionRepository"
+        elif req in links:
+            want, origin = max(links[req], key=GL.V), "FindLinksRepository"
+        else:
+            want, origin = None, None
+        if r["answer"] != want:
+            kind = "released-project-still-served-by-solution" if (req in rel and req in sol and r["answer"] == sol[req] and r.get("origin") == "SolutionRepository") else "wrong-answer"
+            return [("C04/%s" % kind, {"want": want, "got": r["answer"], "origin": r.get("origin")})]
+        if want is not None and r["origin"] != origin:
+            return [("C04/answered-by-wrong-repository", {"want": origin, "got": r["origin"]})]
+        return []
+
+    def shrink(self, case):
+        for i in range(len(case["released"])):
+            yield dict(case, released=case["released"][:i] + case["released"][i + 1:])
+        for n in list(case["solution"]):
+            yield dict(case, solution={k: v for k, v in case["solution"].items() if k != n})
+        for n in list(case["links"]):
+            yield dict(case, links={k: v for k, v in case["links"].items() if k != n})
+
+
 def streams():
-    return [StackStream()]
+    return [StackStream(), ReleaseFallThrough()]
